@@ -1,1 +1,286 @@
-//! Harness contracts for C15.
+//! Harness contracts for C15 (also usable by C20): thin wiring of the RWA identity stack,
+//! every body forwards to the library function the module documentation names.
+//!
+//! * `Cti`        — `ClaimTopicsAndIssuers` over `claim_topics_and_issuers::storage::*`
+//! * `Irs`        — `IdentityRegistryStorage` (+ `TokenBinder`) over `identity_registry_storage::*`
+//! * `Ident`      — an identity contract: `IdentityClaims` over `identity_claims::*` (+ `remove_claim`)
+//! * `IdVerifier` — `IdentityVerifier` over `identity_verifier::storage::*`
+//! * `Issuer`     — `ClaimIssuer::is_claim_valid` written from the claim_issuer module recipe
+//!                  (extract -> key allowed for topic -> not expired -> build message -> not revoked -> verify)
+//!                  for the three library verifiers, plus the key / revocation / nonce admin entry points.
+//!
+//! Admin-ish entry points take an `operator` and call `operator.require_auth()` (authorization is
+//! not C15's subject; the property module uses `mock_all_auths` for them).
+
+pub mod cti {
+    use soroban_sdk::{contract, contractimpl, Address, Env, Map, Vec};
+    use stellar_tokens::rwa::claim_topics_and_issuers::{storage as s, ClaimTopicsAndIssuers};
+
+    #[contract]
+    pub struct Cti;
+
+    #[contractimpl]
+    impl ClaimTopicsAndIssuers for Cti {
+        fn add_claim_topic(e: &Env, claim_topic: u32, operator: Address) {
+            operator.require_auth();
+            s::add_claim_topic(e, claim_topic)
+        }
+        fn remove_claim_topic(e: &Env, claim_topic: u32, operator: Address) {
+            operator.require_auth();
+            s::remove_claim_topic(e, claim_topic)
+        }
+        fn get_claim_topics(e: &Env) -> Vec<u32> {
+            s::get_claim_topics(e)
+        }
+        fn add_trusted_issuer(e: &Env, trusted_issuer: Address, claim_topics: Vec<u32>, operator: Address) {
+            operator.require_auth();
+            s::add_trusted_issuer(e, &trusted_issuer, &claim_topics)
+        }
+        fn remove_trusted_issuer(e: &Env, trusted_issuer: Address, operator: Address) {
+            operator.require_auth();
+            s::remove_trusted_issuer(e, &trusted_issuer)
+        }
+        fn update_issuer_claim_topics(e: &Env, trusted_issuer: Address, claim_topics: Vec<u32>, operator: Address) {
+            operator.require_auth();
+            s::update_issuer_claim_topics(e, &trusted_issuer, &claim_topics)
+        }
+        fn get_trusted_issuers(e: &Env) -> Vec<Address> {
+            s::get_trusted_issuers(e)
+        }
+        fn get_claim_topic_issuers(e: &Env, claim_topic: u32) -> Vec<Address> {
+            s::get_claim_topic_issuers(e, claim_topic)
+        }
+        fn get_claim_topics_and_issuers(e: &Env) -> Map<u32, Vec<Address>> {
+            s::get_claim_topics_and_issuers(e)
+        }
+        fn is_trusted_issuer(e: &Env, issuer: Address) -> bool {
+            s::is_trusted_issuer(e, &issuer)
+        }
+        fn get_trusted_issuer_claim_topics(e: &Env, trusted_issuer: Address) -> Vec<u32> {
+            s::get_trusted_issuer_claim_topics(e, &trusted_issuer)
+        }
+        fn has_claim_topic(e: &Env, issuer: Address, claim_topic: u32) -> bool {
+            s::has_claim_topic(e, &issuer, claim_topic)
+        }
+    }
+}
+
+pub mod irs {
+    use soroban_sdk::{contract, contractimpl, Address, Env, Vec};
+    use stellar_tokens::rwa::{
+        identity_registry_storage::{self as identity_storage, CountryData, IdentityRegistryStorage, IdentityType},
+        utils::token_binder::{self as binder, TokenBinder},
+    };
+
+    #[contract]
+    pub struct Irs;
+
+    #[contractimpl]
+    impl TokenBinder for Irs {
+        fn linked_tokens(e: &Env) -> Vec<Address> {
+            binder::linked_tokens(e)
+        }
+        fn bind_token(e: &Env, token: Address, operator: Address) {
+            operator.require_auth();
+            binder::bind_token(e, &token);
+        }
+        fn unbind_token(e: &Env, token: Address, operator: Address) {
+            operator.require_auth();
+            binder::unbind_token(e, &token);
+        }
+    }
+
+    #[contractimpl]
+    impl IdentityRegistryStorage for Irs {
+        type CountryData = CountryData;
+
+        fn add_identity(e: &Env, account: Address, identity: Address, initial_profiles: Vec<CountryData>, operator: Address) {
+            operator.require_auth();
+            identity_storage::add_identity(e, &account, &identity, IdentityType::Individual, &initial_profiles);
+        }
+        fn modify_identity(e: &Env, account: Address, new_identity: Address, operator: Address) {
+            operator.require_auth();
+            identity_storage::modify_identity(e, &account, &new_identity);
+        }
+        fn remove_identity(e: &Env, account: Address, operator: Address) {
+            operator.require_auth();
+            identity_storage::remove_identity(e, &account);
+        }
+        fn stored_identity(e: &Env, account: Address) -> Address {
+            identity_storage::stored_identity(e, &account)
+        }
+        fn recover_identity(e: &Env, old_account: Address, new_account: Address, operator: Address) {
+            operator.require_auth();
+            identity_storage::recover_identity(e, &old_account, &new_account);
+        }
+        fn get_recovered_to(e: &Env, old: Address) -> Option<Address> {
+            identity_storage::get_recovered_to(e, &old)
+        }
+    }
+}
+
+pub mod ident {
+    use soroban_sdk::{contract, contractimpl, contracttype, Address, Bytes, BytesN, Env, String, Vec};
+    use stellar_tokens::rwa::identity_claims::{self as claims, Claim, IdentityClaims};
+
+    #[contract]
+    pub struct Ident;
+
+    #[contractimpl]
+    impl IdentityClaims for Ident {
+        fn add_claim(e: &Env, topic: u32, scheme: u32, issuer: Address, signature: Bytes, data: Bytes, uri: String) -> BytesN<32> {
+            claims::add_claim(e, topic, scheme, &issuer, &signature, &data, &uri)
+        }
+        fn get_claim(e: &Env, claim_id: BytesN<32>) -> Claim {
+            claims::get_claim(e, &claim_id)
+        }
+        fn get_claim_ids_by_topic(e: &Env, topic: u32) -> Vec<BytesN<32>> {
+            claims::get_claim_ids_by_topic(e, topic)
+        }
+    }
+
+    #[contractimpl]
+    impl Ident {
+        pub fn remove_claim(e: &Env, claim_id: BytesN<32>) {
+            claims::remove_claim(e, &claim_id)
+        }
+    }
+
+    /// Mirror of `identity_claims::storage::ClaimsStorageKey` (that enum lives in a private module and
+    /// is not re-exported).  Used only by the property module to place a claim record that `add_claim`
+    /// would refuse into an identity's storage (inside `e.as_contract`); the result is always read back
+    /// through the public `get_claim` / `get_claim_ids_by_topic` entry points, so a layout drift is
+    /// detected as a harness error, not silently ignored.
+    #[contracttype]
+    pub enum ClaimsStorageKey {
+        Claim(BytesN<32>),
+        ClaimsByTopic(u32),
+    }
+}
+
+pub mod verifier {
+    use soroban_sdk::{contract, contractimpl, Address, Env};
+    use stellar_tokens::rwa::identity_verifier::{storage as s, IdentityVerifier};
+
+    #[contract]
+    pub struct IdVerifier;
+
+    #[contractimpl]
+    impl IdentityVerifier for IdVerifier {
+        fn verify_identity(e: &Env, account: &Address) {
+            s::verify_identity(e, account)
+        }
+        fn recovery_target(e: &Env, old_account: &Address) -> Option<Address> {
+            s::recovery_target(e, old_account)
+        }
+        fn set_claim_topics_and_issuers(e: &Env, claim_topics_and_issuers: Address, operator: Address) {
+            operator.require_auth();
+            s::set_claim_topics_and_issuers(e, &claim_topics_and_issuers)
+        }
+        fn claim_topics_and_issuers(e: &Env) -> Address {
+            s::claim_topics_and_issuers(e)
+        }
+    }
+
+    #[contractimpl]
+    impl IdVerifier {
+        pub fn set_identity_registry_storage(e: &Env, identity_registry_storage: Address, operator: Address) {
+            operator.require_auth();
+            s::set_identity_registry_storage(e, &identity_registry_storage)
+        }
+        pub fn identity_registry_storage(e: &Env) -> Address {
+            s::identity_registry_storage(e)
+        }
+    }
+}
+
+pub mod issuer {
+    use soroban_sdk::{contract, contracterror, contractimpl, panic_with_error, Address, Bytes, Env};
+    use stellar_tokens::rwa::claim_issuer::{
+        self as ci, ClaimIssuer, ClaimIssuerError, Ed25519Verifier, Secp256k1Verifier, Secp256r1Verifier, SignatureVerifier,
+    };
+
+    /// scheme numbers are issuer-local (module docs: "Scheme 101 might expect Ed25519 …, 102 Secp256k1 …")
+    pub const ED25519_SCHEME_NUM: u32 = 101;
+    pub const SECP256K1_SCHEME_NUM: u32 = 102;
+    pub const SECP256R1_SCHEME_NUM: u32 = 103;
+
+    #[contracterror]
+    #[derive(Copy, Clone, Debug, Eq, PartialEq)]
+    #[repr(u32)]
+    pub enum IssuerError {
+        UnknownScheme = 1,
+        Expired = 2,
+        Revoked = 3,
+    }
+
+    #[contract]
+    pub struct Issuer;
+
+    /// The documented recipe, once per library verifier (the three `SignatureData` types share no trait
+    /// for the public key, hence a macro instead of a generic function).
+    macro_rules! recipe {
+        ($ver:ty, $e:expr, $identity:expr, $topic:expr, $scheme:expr, $sig_data:expr, $claim_data:expr) => {{
+            // 1. extract signature data (panics SigDataMismatch on a wrong length)
+            let signature_data = <$ver as SignatureVerifier>::extract_signature_data($e, $sig_data);
+            // 2. key allowed for this topic
+            let pk: Bytes = signature_data.public_key.clone().into();
+            if !ci::is_key_allowed_for_topic($e, &pk, $scheme, $topic) {
+                panic_with_error!($e, ClaimIssuerError::NotAllowed)
+            }
+            // 3. not expired (claim data carries created_at / valid_until)
+            if ci::is_claim_expired($e, $claim_data) {
+                panic_with_error!($e, IssuerError::Expired)
+            }
+            // 4. message: network id || issuer || identity || topic || nonce || data
+            let message = <$ver as SignatureVerifier>::build_message($e, $identity, $topic, $claim_data);
+            // 5. not revoked
+            if ci::is_claim_revoked($e, $identity, $topic, $claim_data) {
+                panic_with_error!($e, IssuerError::Revoked)
+            }
+            // 6. verify (panics when the signature does not verify)
+            <$ver as SignatureVerifier>::verify($e, &message, &signature_data)
+        }};
+    }
+
+    #[contractimpl]
+    impl ClaimIssuer for Issuer {
+        fn is_claim_valid(e: &Env, identity: Address, claim_topic: u32, scheme: u32, sig_data: Bytes, claim_data: Bytes) {
+            match scheme {
+                ED25519_SCHEME_NUM => recipe!(Ed25519Verifier, e, &identity, claim_topic, scheme, &sig_data, &claim_data),
+                SECP256K1_SCHEME_NUM => recipe!(Secp256k1Verifier, e, &identity, claim_topic, scheme, &sig_data, &claim_data),
+                SECP256R1_SCHEME_NUM => recipe!(Secp256r1Verifier, e, &identity, claim_topic, scheme, &sig_data, &claim_data),
+                _ => panic_with_error!(e, IssuerError::UnknownScheme),
+            }
+        }
+    }
+
+    #[contractimpl]
+    impl Issuer {
+        pub fn allow_key(e: &Env, public_key: Bytes, registry: Address, scheme: u32, claim_topic: u32, operator: Address) {
+            operator.require_auth();
+            ci::allow_key(e, &public_key, &registry, scheme, claim_topic)
+        }
+        pub fn remove_key(e: &Env, public_key: Bytes, registry: Address, scheme: u32, claim_topic: u32, operator: Address) {
+            operator.require_auth();
+            ci::remove_key(e, &public_key, &registry, scheme, claim_topic)
+        }
+        pub fn set_claim_revoked(e: &Env, identity: Address, claim_topic: u32, claim_data: Bytes, revoked: bool, operator: Address) {
+            operator.require_auth();
+            ci::set_claim_revoked(e, &identity, claim_topic, &claim_data, revoked)
+        }
+        pub fn invalidate_claim_signatures(e: &Env, identity: Address, claim_topic: u32, operator: Address) {
+            operator.require_auth();
+            ci::invalidate_claim_signatures(e, &identity, claim_topic)
+        }
+        pub fn is_claim_revoked(e: &Env, identity: Address, claim_topic: u32, claim_data: Bytes) -> bool {
+            ci::is_claim_revoked(e, &identity, claim_topic, &claim_data)
+        }
+        pub fn get_current_nonce_for(e: &Env, identity: Address, claim_topic: u32) -> u32 {
+            ci::get_current_nonce_for(e, &identity, claim_topic)
+        }
+        pub fn is_key_allowed_for_topic(e: &Env, public_key: Bytes, scheme: u32, claim_topic: u32) -> bool {
+            ci::is_key_allowed_for_topic(e, &public_key, scheme, claim_topic)
+        }
+    }
+}
